@@ -79,6 +79,10 @@ func (c *Ctx) Sim(tweak func(*simrt.Config), root func()) *simrt.Result {
 	cfg := simrt.Config{Seed: simrt.Mix(c.Seed, uint64(1000+c.nsim)), Strategy: -1, KeepEvents: c.keep}
 	// race-directed stalls in half of the runs (derived from the case seed so
 	// that a replay makes the same draws)
+	// clock jumps in half of the runs (only drawn when the code looks at the time)
+	if simrt.Mix(c.Seed, uint64(3000+c.nsim))%2 == 1 {
+		cfg.ClockJump = 0.02
+	}
 	switch simrt.Mix(c.Seed, uint64(2000+c.nsim)) % 4 {
 	case 2:
 		cfg.AccessStall = 0.03
